@@ -6,7 +6,7 @@ from ..core import AnalysisError, Undecided
 from .. import e1_model as e1
 from ..e3_rules import get_engine
 from ..e3_values import *  # noqa
-from .common import rule_construct, report_undecided, calls_in, norm
+from .common import rule_construct, report_undecided, calls_in, norm, runs_of, Relevant
 from .lang import rules_accepting
 from .relspec import Summary, ts_sweep
 
@@ -49,6 +49,7 @@ def _first_on_or_after(day, dow):
 
 def check(ctx, rep, tier):
     eng = get_engine(ctx)
+    RELEVANT.names.clear()
     rep.describe("reference-time", "the value reaching every production's first parameter is "
                  "the caller's reference time, or datetime.now() exactly when it was None; "
                  "no rebinding or truncation on the way (def-use chain over the call sites)")
@@ -64,7 +65,7 @@ def check(ctx, rep, tier):
     rep.count("reference_times", len(sweep), 300)
     _offsets(ctx, rep, eng, sweep)
     _weekdays(ctx, rep, eng, sweep)
-    report_undecided(rep, eng)
+    report_undecided(rep, eng, RELEVANT)
     rep.assume("A2: dateutil.relativedelta is the arithmetic model of the datetime terms")
     rep.assume("not decided: which surface forms the regexes accept beyond the locating "
                "words; that the scorer ranks the intended reading first")
@@ -200,7 +201,11 @@ def _coherence(ctx, rep, eng):
 
 
 def _runs_of(eng, rule):
-    return [run for mk, run in eng.runs.items() if run.rule is rule]
+    RELEVANT.add(rule)
+    return runs_of(eng, rule)
+
+
+RELEVANT = Relevant()
 
 
 def _offsets(ctx, rep, eng, sweep):
